@@ -107,15 +107,22 @@ def extra_parsers_db():
         MacroSpec('me', [LatexArgumentSpec('e{^_}')]),
         MacroSpec('many', [LatexArgumentSpec('AnyDelimited')]),
         MacroSpec('mm', [LatexArgumentSpec('m')]),
-    ], environments=[EnvironmentSpec('eenv', [LatexArgumentSpec('['), LatexArgumentSpec('{')])],
-        specials=[])
+        MacroSpec('msn', [LatexArgumentSpec(P.LatexSingleNodeParser())]),
+    ], environments=[
+        EnvironmentSpec('eenv', [LatexArgumentSpec('['), LatexArgumentSpec('{')]),
+        # body read by the library's verbatim environment contents parser (the default
+        # context's verbatim environment goes through the legacy arguments parser instead)
+        EnvironmentSpec('vcode', make_body_parser=lambda token, nodeargd, delta:
+                        P.LatexVerbatimEnvironmentContentsParser(environment_name='vcode')),
+    ], specials=[])
     db.set_unknown_macro_spec(MacroSpec(''))
     db.set_unknown_environment_spec(EnvironmentSpec(''))
     return db
 
 
 EXTRA_TOKENS = ['\\mcomma', '\\mcommak', '\\mchars', '\\mtack', '\\ta', '\\tb', '\\mempty', '\\me',
-                '\\many', '\\mm', ',', '+', '^', '_', '(', ')', '{', '}', 'a', ' ', '%', '\\']
+                '\\many', '\\mm', ',', '+', '^', '_', '(', ')', '{', '}', 'a', ' ', '%', '\\',
+                '\\msn', '\\begin{vcode}', '\\end{vcode}', '\n\n']
 
 
 def extdelta_db():
